@@ -1,5 +1,5 @@
 (* Spec/C11.v -- stream parsing is independent of TCP segmentation (HTTP, ONC-RPC over TCP). *)
-From MS Require Export Bytes Types Proto Spec.AppView.
+From MS Require Export Bytes Types Proto Spec.AppView Spec.PendingBound.
 
 (* the application layer fed with the data segments of one validated flow, in
    order, starting from a fresh control block; returns the application payload
@@ -41,3 +41,16 @@ Fixpoint map_res {A B} (f : A -> res B) (l : list A) : res (list B) :=
   | [] => Ok []
   | x :: t => do y <- f x; do ys <- map_res f t; Ok (y :: ys)
   end.
+
+(* ---- the per-table obligation of the stream statements (decided by computation on the
+   dumped matcher, Spec/PendingBound.v): the table is structurally sane, and a stream whose
+   first SIG_SPAN bytes complete no signature never completes one.  SIG_SPAN <= PENDING_MAX,
+   so the bytes of a flow are all in the prefix buffer when a signature is completed. ---- *)
+Definition SIG_SPAN : nat := 28.
+Definition proto_tbl_ok (E : env) : bool :=
+  let t := e_proto_tbl E in
+  smack_ok t && (sm_rows t <=? TWO24) && (0 <? sm_rows t) && (0 <? sm_match_limit t) &&
+  ident_bound_ok t SIG_SPAN.
+
+(* the replies of a flow before / from the segment in which its protocol is identified *)
+Definition quiet (n : nat) : list (option bytes) := repeat None n.
